@@ -36,6 +36,7 @@ EXPLANATION = (
     "tables agree; (e) the resume path never re-initialises iter/calls/beta/logz except under an is-None guard and "
     "derives t0 from the restored counter; (f) periodic and final saves are wired to save_every. Decides code shape "
     "only: bit-exact equality of restored arrays, picklability of user objects and directory fsync are not decided."
+    " Also under (c): the temporary file is opened for truncating write, callers of the writers make no non-atomic second copy of a checkpoint, and no name built from the output label is cut at a dot."
 )
 ASSUMPTIONS = [
     "dill.dump/dill.load serialise and restore the dictionary faithfully",
